@@ -1,6 +1,12 @@
 CONSTANT F12Fixed = TRUE
-CONSTANT ClsSel = {"bin", "shift", "not", "widen", "narrow", "chain"}
-CONSTANT TySel = {"u8"}
+CONSTANT B256CmpFixed = TRUE
+CONSTANT ClsSel = {"bin","shift","not","widen","narrow","chain"}
+CONSTANT TySel = {"u256"}
 SPECIFICATION Spec
+INVARIANT Agreement
+INVARIANT NoSubstitution
+INVARIANT NoPanic
+INVARIANT InRange
+INVARIANT FoldSound
 INVARIANT PrintReplay
 CHECK_DEADLOCK FALSE
